@@ -34,6 +34,7 @@ import (
 
 	"context"
 	"github.com/google/inverting-proxy/agent/metrics"
+	"github.com/google/inverting-proxy/verifhook"
 )
 
 const (
@@ -319,6 +320,7 @@ func createShimChannel(ctx context.Context, host, shimPath string, rewriteHost b
 			return
 		}
 		connections.Store(sessionID, conn)
+		verifhook.Emit("WsStore", "sid", sessionID, "target", targetURL.String())
 		log.Printf("Websocket connection to the server %q established for session: %v\n", targetURL.String(), sessionID)
 		vh := r.Header.Get("X-Websocket-Shim-Version")
 		if vh != "" {
@@ -395,6 +397,7 @@ func createShimChannel(ctx context.Context, host, shimPath string, rewriteHost b
 			return
 		}
 		connections.Delete(msg.ID)
+		verifhook.Emit("WsDelete", "sid", msg.ID, "by", "close")
 		conn.Close()
 		statusCode := http.StatusOK
 		w.WriteHeader(statusCode)
@@ -491,6 +494,7 @@ func createShimChannel(ctx context.Context, host, shimPath string, rewriteHost b
 			http.Error(w, fmt.Sprintf("attempt to read data from a closed session: %q", msg.ID), statusCode)
 			metricHandler.WriteResponseCodeMetric(statusCode)
 			connections.Delete(msg.ID)
+			verifhook.Emit("WsDelete", "sid", msg.ID, "by", "poll")
 			return
 		} else if serverMsgs == nil {
 			statusCode := http.StatusRequestTimeout
